@@ -140,7 +140,7 @@ func genCliTreeCases(r *rand.Rand, n int) []Case {
 			t[name] = []byte(genRaBytes(r, 8))
 		}
 		if chance(r, 0.3) {
-			t[pick(r, []string{"regex-assembly/000bad.ra", "regex-assembly/943000.ra", "regex-assembly/zzz.ra"})] = []byte(pick(r, []string{"##!<\nfoo\n", "foo\n##!+ x\n", "##!> include a -- b\n", "##!> assemble\n##!<\n##!<\n"}))
+			t[pick(r, []string{"regex-assembly/000bad.ra", "regex-assembly/943000.ra", "regex-assembly/zzz.ra"})] = []byte(pick(r, []string{"##!<\nfoo\n", "homer\n  bart\n##!<\nmarge\n", "foo\n##!+ x\n", "##!> include a -- b\n", "##!> assemble\n##!<\n##!<\n"}))
 		}
 		// nested test directories and odd names
 		if chance(r, 0.5) {
